@@ -507,6 +507,8 @@ class Parser:
         self, parts: list[ast.JoinedStr | TokenInfo]
     ) -> ast.Constant | ast.JoinedStr | ast.Call:
         """Concatenate multiple tokens and ast.JoinedStr"""
+        if len({self._is_bytes_literal(p) for p in parts}) > 1:
+            self.raise_syntax_error_known_range("cannot mix bytes and nonbytes literals", parts[0], parts[-1])
         # Get proper start and stop
         start = end = None
         if isinstance(parts[0], ast.JoinedStr):
@@ -568,6 +570,13 @@ class Parser:
         if path_tok:
             self._path_token = path_tok
         return ast.JoinedStr(values=b, **locs)
+
+    @staticmethod
+    def _is_bytes_literal(part: ast.JoinedStr | TokenInfo) -> bool:
+        if not isinstance(part, TokenInfo):
+            return False
+        quote = min(i for i in (part.string.find("'"), part.string.find('"')) if i >= 0)
+        return "b" in part.string[:quote].lower()
 
     @staticmethod
     def _strip_path_prefix(token: TokenInfo | ast.expr) -> TokenInfo | None:
